@@ -6,5 +6,6 @@ cd "$(dirname "$0")/harness"
 cargo build --quiet --profile checked
 cargo build --quiet --profile fast
 cargo build --quiet --profile dev0
+cargo build --quiet --profile fast --no-default-features --target-dir target/noutils
 (cd c16_traits && cargo check --quiet --target-dir ../target/c16)
 echo "setup ok"
